@@ -248,19 +248,30 @@ Definition init_state (r : store) : state := init_state_gen r false.
 Record variant := {
   v_persist_first : bool;   (* Commit writes the startup file before it swaps running (fixed in /repo 1761ed1) *)
   v_set_atomic : bool;      (* a Set that fails in convertValue leaves the candidate untouched (fixed in 61c97e1) *)
-  v_frr_restore : bool      (* a failed routing-daemon reload is followed by a reload of the running config (fixed in e792c74) *)
+  v_frr_restore : bool;     (* a failed routing-daemon reload is followed by a reload of the running config (fixed in e792c74) *)
+  v_report_restore : bool;  (* when that restoring reload fails too, the returned error says so (open: fixes/C13_report_restore) *)
+  v_boot_atomic : bool      (* ApplyLoadedConfig validates before it publishes and puts running back when it fails
+                               (open: fixes/C13_boot_atomic) *)
 }.
-Definition Repaired : variant := {| v_persist_first := true; v_set_atomic := true; v_frr_restore := true |}.
-Definition FrrDefect : variant := {| v_persist_first := true; v_set_atomic := true; v_frr_restore := false |}.
-Definition Defective : variant := {| v_persist_first := false; v_set_atomic := false; v_frr_restore := false |}.
-Definition PersistDefect : variant := {| v_persist_first := false; v_set_atomic := true; v_frr_restore := true |}.
-Definition SetDefect : variant := {| v_persist_first := true; v_set_atomic := false; v_frr_restore := true |}.
+Definition mkv (a b c d e : bool) : variant :=
+  {| v_persist_first := a; v_set_atomic := b; v_frr_restore := c; v_report_restore := d; v_boot_atomic := e |}.
+Definition Repaired : variant := mkv true true true true true.
+Definition Head : variant := mkv true true true false false.              (* /repo HEAD *)
+Definition RestoreUnreported : variant := mkv true true true false true.
+Definition BootUnatomic : variant := mkv true true true true false.
+Definition FrrDefect : variant := mkv true true false false false.         (* before e792c74 *)
+Definition Defective : variant := mkv false false false false false.       (* before every fix *)
+Definition PersistDefect : variant := mkv false true true false false.
+Definition SetDefect : variant := mkv true false true false false.
 
 (* fault oracle of one Commit.  f_reload: 0 = the reload succeeds, 1 = it fails before it changed the daemon,
    2 = it fails after the daemon has taken the candidate (frr-reload.py applies line by line) *)
-Record faults := { f_apply : nat; f_rollback : nat; f_test : bool; f_reload : nat; f_startup : bool; f_version : bool }.
+Record faults := { f_apply : nat; f_rollback : nat; f_test : bool; f_reload : nat; f_restore : bool;
+                   f_startup : bool; f_version : bool }.
+(* f_restore: the RESTORING reload (of the running configuration, after a failed reload or a failed startup
+   write) fails too — e.g. the daemon is down — without touching the daemon *)
 Definition no_faults : faults :=
-  {| f_apply := 0; f_rollback := 0; f_test := false; f_reload := 0; f_startup := false; f_version := false |}.
+  {| f_apply := 0; f_rollback := 0; f_test := false; f_reload := 0; f_restore := false; f_startup := false; f_version := false |}.
 
 Inductive bstep := BEdit (add : store) | BSet (p : path) (v : value).
 
@@ -279,6 +290,7 @@ Inductive op :=
 Inductive res :=
 | RId (n : N) | ROk | RLocked | RNoSession | RNoHandler | RInvalid | RSetFail | RCycle | RDepMissing
 | RDepErr | RNoChanges | RPrecommit | RApplyFail | RFrrTest | RFrrReload | RStartupSave | RVersionSave
+| RFrrReloadU | RStartupSaveU      (* the same, and the error says that restoring the daemon failed too *)
 | RBadVersion | RBadVerType | RNotImpl | RModelFuel | RInadmissible | RBootErr | RBootVersion.
 
 (* the recorded call stream: handler Apply / Rollback calls with their outcome, routing-daemon calls *)
@@ -571,10 +583,31 @@ Definition mss_ok (g : guard) (cand : store) : bool :=
      let m16 := if (m =? 0)%Z then 1500%Z else (m mod 65536)%Z in      (* uint16(parent.MTU) *)
      (req <=? m16)%Z)
   end.
+(* GetSVLANs / GetCVLAN for single numbers: 1..4094; cvlan "" / "any" = wildcard; anything else is an error
+   and ValidateMatchIndex SKIPS the entry (ranges "a-b" are C14's subject and are not generated here) *)
+Definition vlan_of (s : list N) : option Z :=
+  match parse_digits s with
+  | Some z => if ((1 <=? z) && (z <=? 4094))%Z then Some z else None
+  | None => None
+  end.
+Definition s_any : list N := [97; 110; 121]%N.
+Definition claim_of (sv cv : option sval) : list (option sval * option sval) :=
+  match sv with
+  | Some (SStr s) =>
+    match vlan_of s with
+    | Some z =>
+      match cv with
+      | None => [(Some (SInt z), None)]
+      | Some (SStr c) => if path_eqb c s_any then [(Some (SInt z), None)]
+                         else match vlan_of c with Some y => [(Some (SInt z), Some (SInt y))] | None => [] end
+      | _ => []
+      end
+    | None => []
+    end
+  | _ => []
+  end.
 Definition claims (g : guard) (cand : store) : list (option sval * option sval) :=
-  flat_map (fun c => match get_leaf cand (c ++ [g_sv g]) with
-                     | Some sv => [(Some sv, get_leaf cand (c ++ [g_cv g]))]
-                     | None => [] end) (conts cand).
+  flat_map (fun c => claim_of (get_leaf cand (c ++ [g_sv g])) (get_leaf cand (c ++ [g_cv g]))) (conts cand).
 Definition claim_eqb (a b : option sval * option sval) : bool :=
   osval_eqb (fst a) (fst b) && osval_eqb (snd a) (snd b).
 Fixpoint has_dup (l : list (option sval * option sval)) : bool :=
@@ -633,7 +666,11 @@ Definition do_commit (var : variant) (reg : registry) (g : guard) (st0 : state) 
         (* reloadFRR(sess.config) failed; f_reload = 2: the daemon has taken the candidate nevertheless *)
         let d1 := if Nat.eqb (f_reload f) 2 then Some cand else frr st in
         if v_frr_restore var
-        then (with_frr st1 (Some (running st)), RFrrReload, evs ++ [EFrrTest; EFrrReload; EFrrReload] ++ rb)
+        then
+          if f_restore f
+          then (with_frr st1 d1, if v_report_restore var then RFrrReloadU else RFrrReload,
+                evs ++ [EFrrTest; EFrrReload; EFrrReload] ++ rb)          (* restore attempted, failed: logged *)
+          else (with_frr st1 (Some (running st)), RFrrReload, evs ++ [EFrrTest; EFrrReload; EFrrReload] ++ rb)
         else (with_frr st1 d1, RFrrReload, evs ++ [EFrrTest; EFrrReload] ++ rb)
       else
       let evs1 := if need then evs ++ [EFrrTest; EFrrReload] else evs in
@@ -663,6 +700,10 @@ Definition do_commit (var : variant) (reg : registry) (g : guard) (st0 : state) 
         (* persist first; a failed startup write puts the daemon back on running, rolls the handlers back
            and leaves every datastore alone; a failed version write is logged *)
         if f_startup f then
+          if need && f_restore f
+          then (with_frr st1 (Some cand), if v_report_restore var then RStartupSaveU else RStartupSave,
+                (evs1 ++ [EFrrReload]) ++ rb)                             (* the daemon keeps the candidate *)
+          else
           (with_frr st1 (if need then Some (running st) else frr st), RStartupSave,
            (if need then evs1 ++ [EFrrReload] else evs1) ++ rb)
         else
@@ -805,33 +846,48 @@ Fixpoint boot_steps (var : variant) (reg : registry) (st : state) (id : N) (o : 
     | (st', _) => (st', false)
     end
   end.
+(* outcomes after which the loaded configuration stays published: success, the failed second version write,
+   and "no changes to commit" (a start-up configuration without any handled path; osvbngd accepts that error) *)
+Definition is_boot_ok (r : res) : bool := match r with ROk | RBootVersion | RNoChanges => true | _ => false end.
 Definition do_boot (var : variant) (reg : registry) (g : guard) (st0 : state) (cfg : store)
            (steps : list bstep) (emitted : list (path * value)) (f : faults) : state * res * list ev :=
   let o := (next_oid st0 + 1)%N in
-  (* LoadStartupConfig: cd.startupConfig = deepCopy(cfg); ApplyLoadedConfig: cd.runningConfig = that object *)
+  (* LoadStartupConfig: cd.startupConfig = deepCopy(cfg) *)
+  let st_l := {| running := running st0; running_oid := running_oid st0; startup := cfg; startup_oid := o;
+                 sfile := sfile st0; frr := frr st0; sessions := sessions st0; lock := lock st0;
+                 next_id := next_id st0; next_oid := o; vmem := vmem st0; vfiles := vfiles st0 |} in
+  if v_boot_atomic var && negb (precommit_ok g cfg) then (st_l, RPrecommit, []) else
+  (* ApplyLoadedConfig: cd.runningConfig = that object, before any validator or handler has seen it *)
   let st_a := {| running := cfg; running_oid := o; startup := cfg; startup_oid := o; sfile := sfile st0;
                  frr := frr st0; sessions := sessions st0; lock := lock st0; next_id := next_id st0;
                  next_oid := o; vmem := vmem st0; vfiles := vfiles st0 |} in
-  match do_create st_a with
-  | (st_b, RId id) =>
-    match load_core reg st_b id cfg o emitted with         (* LoadConfig(sessionID, config): the SAME object *)
-    | (st_c, ROk) =>
-      match boot_steps var reg st_c id o steps with
-      | (st_d, true) =>
-        let '(st_e, r, evs) := do_commit var reg g st_d id f in
-        (* after a successful commit that recorded a version ApplyLoadedConfig stamps its CommitMsg and writes
-           the version file once more itself: that write failing is returned as an error of the start-up *)
-        let r' := match r with
-                  | ROk => if f_version f && negb (Nat.eqb (length (vmem st_e)) (length (vmem st_d)))
-                           then RBootVersion else ROk
-                  | _ => r end in
-        (fst (do_close st_e id), r', evs)                  (* defer CloseCandidateSession *)
-      | (st_d, false) => (fst (do_close st_d id), RBootErr, [])
+  let '(st_z, r, evs) :=
+    match do_create st_a with
+    | (st_b, RId id) =>
+      match load_core reg st_b id cfg o emitted with         (* LoadConfig(sessionID, config): the SAME object *)
+      | (st_c, ROk) =>
+        match boot_steps var reg st_c id o steps with
+        | (st_d, true) =>
+          let '(st_e, r, evs) := do_commit var reg g st_d id f in
+          (* after a successful commit that recorded a version ApplyLoadedConfig stamps its CommitMsg and writes
+             the version file once more itself: that write failing is returned as an error of the start-up *)
+          let r' := match r with
+                    | ROk => if f_version f && negb (Nat.eqb (length (vmem st_e)) (length (vmem st_d)))
+                             then RBootVersion else ROk
+                    | _ => r end in
+          (fst (do_close st_e id), r', evs)                  (* defer CloseCandidateSession *)
+        | (st_d, false) => (fst (do_close st_d id), RBootErr, [])
+        end
+      | (st_c, r) => (fst (do_close st_c id), r, [])
       end
-    | (st_c, r) => (fst (do_close st_c id), r, [])
-    end
-  | (st_b, r) => (st_b, r, [])
-  end.
+    | (st_b, r) => (st_b, r, [])
+    end in
+  if v_boot_atomic var && negb (is_boot_ok r)
+  then (* the start-up failed: running is put back *)
+    ({| running := running st0; running_oid := running_oid st0; startup := startup st_z; startup_oid := startup_oid st_z;
+        sfile := sfile st_z; frr := frr st_z; sessions := sessions st_z; lock := lock st_z; next_id := next_id st_z;
+        next_oid := next_oid st_z; vmem := vmem st_z; vfiles := vfiles st_z |}, r, evs)
+  else (st_z, r, evs).
 
 Definition step (var : variant) (reg : registry) (g : guard) (st : state) (o : op) : state * res * list ev :=
   match o with
